@@ -12,7 +12,7 @@ use serde_json::{json, Value};
 use std::sync::atomic::{AtomicU64, Ordering};
 use std::sync::Arc;
 
-pub const COUNTERS: &[&str] = &["rook_lookups", "bishop_lookups", "bmi_lookups", "ray_subsets", "noise_patterns_per_subset", "builds_checked"];
+pub const COUNTERS: &[&str] = &["rook_lookups", "bishop_lookups", "bmi_lookups", "ray_subsets", "noise_patterns_per_subset", "builds_checked", "ordered_lookup_pairs"];
 
 const ROOK_D: [(i8, i8); 4] = [(1, 0), (0, 1), (-1, 0), (0, -1)];
 const BISHOP_D: [(i8, i8); 4] = [(1, 1), (-1, 1), (-1, -1), (1, -1)];
@@ -22,6 +22,19 @@ fn rays(s: Sq, dirs: &[(i8, i8); 4]) -> u64 {
     for &(df, dr) in dirs {
         let (mut f, mut r) = (file_of(s) + df, rank_of(s) + dr);
         while on_board(f, r) {
+            out |= 1u64 << sq(f, r);
+            f += df;
+            r += dr;
+        }
+    }
+    out
+}
+/// The ray squares without the last square of each ray (the occupancy bits a lookup can depend on).
+fn inner_mask(s: Sq, dirs: &[(i8, i8); 4]) -> u64 {
+    let mut out = 0u64;
+    for &(df, dr) in dirs {
+        let (mut f, mut r) = (file_of(s) + df, rank_of(s) + dr);
+        while on_board(f + df, r + dr) {
             out |= 1u64 << sq(f, r);
             f += df;
             r += dr;
@@ -286,6 +299,88 @@ pub fn sweep(run: &Run, tier: Tier) -> Totals {
         if is_rook { &rook } else { &bishop }.fetch_add(n + n2, Ordering::Relaxed);
         bmi.fetch_add(nb + nb2, Ordering::Relaxed);
     });
+    // call order across squares and pieces: EVERY ordered pair of lookups (piece, square, subset of the inner ray
+    // squares) — 107,648 lookups, 1.16 x 10^10 ordered pairs — the second one compared with ray walking.  A memo
+    // inside the lookups that is keyed by anything narrower than (piece, square, relevant occupancy) answers wrongly
+    // for some such pair, whatever its key.
+    if !run.has_violation() {
+        let mut all: Vec<(bool, Sq, u64, u64)> = vec![];
+        for s in 0..64u8 {
+            for is_rook in [true, false] {
+                let dirs = if is_rook { &ROOK_D } else { &BISHOP_D };
+                let inner = inner_mask(s, dirs);
+                let mut sub = 0u64;
+                loop {
+                    all.push((is_rook, s, sub, walk(s, sub, dirs)));
+                    sub = sub.wrapping_sub(inner) & inner;
+                    if sub == 0 {
+                        break;
+                    }
+                }
+            }
+        }
+        let n_all = all.len() as u64;
+        let pairs_done = AtomicU64::new(0);
+        let all_ref = &all;
+        (0..all.len()).into_par_iter().for_each(|i| {
+            if run.has_violation() || run.over_budget() {
+                return;
+            }
+            let (r1, s1, o1, _) = all_ref[i];
+            let call = |rk: bool, sq_: Sq, occ: u64| -> u64 {
+                if rk {
+                    chess::get_rook_moves(lsq(sq_), BitBoard(occ)).0
+                } else {
+                    chess::get_bishop_moves(lsq(sq_), BitBoard(occ)).0
+                }
+            };
+            #[cfg(target_feature = "bmi2")]
+            let call_bmi = |rk: bool, sq_: Sq, occ: u64| -> u64 {
+                if rk {
+                    chess::get_rook_moves_bmi(lsq(sq_), BitBoard(occ)).0
+                } else {
+                    chess::get_bishop_moves_bmi(lsq(sq_), BitBoard(occ)).0
+                }
+            };
+            let res = guard::lib(|| {
+                for &(r2, s2, o2, want) in all_ref.iter() {
+                    let _ = call(r1, s1, o1);
+                    if call(r2, s2, o2) != want {
+                        return Some(("magic", r2, s2, o2, want));
+                    }
+                    #[cfg(target_feature = "bmi2")]
+                    {
+                        let _ = call_bmi(r1, s1, o1);
+                        if call_bmi(r2, s2, o2) != want {
+                            return Some(("BMI2", r2, s2, o2, want));
+                        }
+                    }
+                }
+                None
+            });
+            match res {
+                Ok(None) => {
+                    pairs_done.fetch_add(n_all, Ordering::Relaxed);
+                }
+                Ok(Some((which, r2, s2, o2, want))) => {
+                    run.report(Violation::new(
+                        "C15",
+                        if r2 { "rook-order" } else { "bishop-order" },
+                        "lookup differs from ray walking when asked right after another lookup",
+                        format!("{which} lookup: {} on {} with occupancy {:#018x} asked right after {} on {} with occupancy {:#018x} differs from ray walking {:#018x}", if r2 { "rook" } else { "bishop" }, sq_name(s2), o2, if r1 { "rook" } else { "bishop" }, sq_name(s1), o1, want),
+                        json!({"kind": "slider-pair", "first": {"piece": if r1 {"rook"} else {"bishop"}, "square": sq_name(s1), "occupancy": format!("{o1:#018x}")}, "piece": if r2 {"rook"} else {"bishop"}, "square": sq_name(s2), "occupancy": format!("{o2:#018x}"), "build": build_name()}),
+                    ));
+                }
+                Err(e) => {
+                    run.report(Violation::new("C15", "panic", "a lookup panicked", e, json!({"kind": "slider", "piece": if r1 {"rook"} else {"bishop"}, "square": sq_name(s1), "occupancy": format!("{o1:#018x}"), "build": build_name()})));
+                }
+            }
+        });
+        run.add("ordered_lookup_pairs", pairs_done.load(Ordering::Relaxed));
+        if run.over_budget() {
+            run.cap("wall-clock budget reached during the ordered lookup pairs".to_string());
+        }
+    }
     Totals { rook: rook.load(Ordering::Relaxed), bishop: bishop.load(Ordering::Relaxed), bmi: bmi.load(Ordering::Relaxed), subsets: subsets.load(Ordering::Relaxed), noise: noise_n.load(Ordering::Relaxed) }
 }
 
@@ -297,7 +392,7 @@ pub fn build_name() -> &'static str {
     }
 }
 
-pub const RULE: &str = "for each of the 64 squares and each of rook / bishop: EVERY subset of the squares on its rays (edge squares included; 2^14 per rook square, up to 2^13 per bishop square) combined with a catalogue of occupancies of the non-ray squares (none, all, two checkerboards, own square, every single non-ray square; thorough: also adjacent pairs); additionally population ladders over the non-ray squares, every triple of non-ray squares within distance 2 of the slider, and EVERY PAIR of non-ray squares (with and without the slider's own square) combined with the empty, the full, every single-square and every all-but-one ray subset (quick) or with every ray subset (thorough); lookup must equal walking each ray up to and including the first occupied square; call order: for every ray subset the lookup repeated, every occupancy that differs in exactly one ray square asked right after it, and the other slider kind on the same square in between. Run in the default build (magic multiplication) and, as a child process, in the +bmi2 build where the pext/pdep variants are judged as well on every input (so bmi == magic == ray walk). distinct_nontrivial = distinct (square, piece, ray subset) cases";
+pub const RULE: &str = "for each of the 64 squares and each of rook / bishop: EVERY subset of the squares on its rays (edge squares included; 2^14 per rook square, up to 2^13 per bishop square) combined with a catalogue of occupancies of the non-ray squares (none, all, two checkerboards, own square, every single non-ray square; thorough: also adjacent pairs); additionally population ladders over the non-ray squares, every triple of non-ray squares within distance 2 of the slider, and EVERY PAIR of non-ray squares (with and without the slider's own square) combined with the empty, the full, every single-square and every all-but-one ray subset (quick) or with every ray subset (thorough); lookup must equal walking each ray up to and including the first occupied square; call order: for every ray subset the lookup repeated, every occupancy that differs in exactly one ray square asked right after it, and the other slider kind on the same square in between; and EVERY ordered pair of the 107,648 lookups (piece, square, subset of the inner ray squares) back to back on one thread, the second compared with ray walking (1.16 x 10^10 pairs per build). Run in the default build (magic multiplication) and, as a child process, in the +bmi2 build where the pext/pdep variants are judged as well on every input (so bmi == magic == ray walk). distinct_nontrivial = distinct (square, piece, ray subset) cases";
 
 /// Worker mode in the +bmi2 binary: run the sweep, print one JSON line.
 pub fn worker(tier: Tier) -> i32 {
@@ -381,6 +476,14 @@ pub fn replay(case: &Value) -> i32 {
     let is_rook = case["piece"] == json!("rook");
     let dirs = if is_rook { &ROOK_D } else { &BISHOP_D };
     let want = walk(s, occ, dirs);
+    if case["first"].is_object() {
+        // an ordered pair: make the earlier lookup first
+        let f = &case["first"];
+        let s1 = RMove::parse_uci(&format!("{}a1", f["square"].as_str().unwrap_or("a1"))).map(|m| m.from).unwrap_or(0);
+        let o1 = u64::from_str_radix(f["occupancy"].as_str().unwrap_or("0x0").trim_start_matches("0x"), 16).unwrap_or(0);
+        let r1 = f["piece"] == json!("rook");
+        let _ = guard::lib(|| if r1 { chess::get_rook_moves(lsq(s1), BitBoard(o1)).0 } else { chess::get_bishop_moves(lsq(s1), BitBoard(o1)).0 });
+    }
     let got = guard::lib(|| if is_rook { chess::get_rook_moves(lsq(s), BitBoard(occ)).0 } else { chess::get_bishop_moves(lsq(s), BitBoard(occ)).0 });
     if got != Ok(want) {
         run.report(Violation::new("C15", "magic", "", format!("lookup {:?} vs ray walking {:#018x} (default build; a +bmi2-only discrepancy needs the bmi2 binary)", got, want), case.clone()));
